@@ -52,4 +52,14 @@ def docDigits (radix : Nat) : List Char → Option (List Nat)
     | .ignored, some ds => some ds
     | .digit d, some ds => some (d :: ds)
 
+/-- `FromStr`: the radix is taken from a leading `0x`/`0o`/`0b` (either case), which is then dropped; else decimal. -/
+def sniff (src : List Char) : List Char × Nat :=
+  match src with
+  | c0 :: c1 :: r =>
+    if c0 = '0' ∧ (c1 = 'x' ∨ c1 = 'X') then (r, 16)
+    else if c0 = '0' ∧ (c1 = 'o' ∨ c1 = 'O') then (r, 8)
+    else if c0 = '0' ∧ (c1 = 'b' ∨ c1 = 'B') then (r, 2)
+    else (src, 10)
+  | _ => (src, 10)
+
 end Ruint.Spec.Radix
